@@ -112,15 +112,22 @@ theorem decodeCells_dirty (nbytes stored : Nat) (signed : Bool) (h1 : 1 ≤ stor
 theorem decodedDType_itemsize (ba pr : Int) (dt : DType) (h : decodedDType ba pr = .ok dt) (hba : ba ≠ 1) :
     (dt.itemsize : Int) * 8 = ba := by
   unfold decodedDType at h
-  split at h
-  · omega
-  · split at h
-    · cases h; split <;> simp [DType.itemsize] <;> omega
-    · split at h
-      · cases h; split <;> simp [DType.itemsize] <;> omega
-      · split at h
-        · cases h; split <;> simp [DType.itemsize] <;> omega
-        · cases h
+  by_cases h1 : ba = 1
+  · exact absurd h1 hba
+  · by_cases h8 : ba = 8
+    · simp only [h1, h8, ↓reduceIte] at h
+      cases h; split <;> simp [DType.itemsize] <;> omega
+    · by_cases h16 : ba = 16
+      · simp only [h1, h8, h16, ↓reduceIte] at h
+        cases h; split <;> simp [DType.itemsize] <;> omega
+      · by_cases h32 : ba = 32
+        · simp only [h1, h8, h16, h32, ↓reduceIte] at h
+          cases h; split <;> simp [DType.itemsize] <;> omega
+        · by_cases h64 : ba = 64
+          · simp only [h1, h8, h16, h32, h64, ↓reduceIte] at h
+            cases h; split <;> simp [DType.itemsize] <;> omega
+          · simp only [h1, h8, h16, h32, h64, ↓reduceIte] at h
+            cases h
 
 /-- **Unused high bits are ignored** (pydicom's `correct_unused_bits`, reached through `decode_frame`'s native route): a native
 frame of 8 / 16 / 32-bit cells whose samples `xs` fit Bits Stored decodes to `xs` whatever the bits above Bits Stored carry in
